@@ -76,4 +76,9 @@ inductive SeedTok where
   | wallet | tokenProgram | mint
   deriving DecidableEq, Repr
 
+/-- Association-list lookup by decidable equality (first match). -/
+def assoc {α β : Type} [DecidableEq α] (k : α) : List (α × β) → Option β
+  | [] => none
+  | (a, b) :: r => if k = a then some b else assoc k r
+
 end Spl
